@@ -105,6 +105,7 @@ def solve_raw(N, b_ram, b_disk, costs, API, mixed=False, read_once=False,
             M2.ram = dict(M.ram)
             M2.disk = dict(M.disk)
             M2.failures = []
+            M2._code_count = {}
             M2.state_keys = set()
             M2.touched = set()
             M2.disk_load_count = {}
